@@ -288,6 +288,8 @@ type writeRun struct {
 	results  []string // per op: ok<n> | closed | err:<msg>
 	closeErr error    // result of the first Close
 	closed   bool
+	nexts    []int // Writer.Next() observed before each op (-1: Next returned an error)
+	lastNext int   // scripts without Close: Writer.Next() after the last op (bytes held in the active block)
 	hang     string // op index description when the watchdog fired
 	panicked *callOutcome
 }
@@ -336,6 +338,11 @@ func runWriter(c *ctx, in bgzfInput, wc int, data []byte) writeRun {
 	for i, k := range kinds {
 		var res string
 		o := guardTimeout(bgzfWatchdog(c), func() {
+			if nx, e := w.Next(); e == nil {
+				wr.nexts = append(wr.nexts, nx)
+			} else {
+				wr.nexts = append(wr.nexts, -1)
+			}
 			switch k {
 			case 'w':
 				var p []byte
@@ -377,6 +384,29 @@ func runWriter(c *ctx, in bgzfInput, wc int, data []byte) writeRun {
 			return wr
 		}
 		wr.results = append(wr.results, res)
+	}
+	if !wr.closed {
+		// a script without Close: let the writer come to rest (Wait), look at what has been delivered, then close
+		// the writer only to release its goroutines (that output is discarded)
+		var snap []byte
+		o := guardTimeout(bgzfWatchdog(c), func() {
+			if e := w.Wait(); e != nil {
+				panic("Wait at the end of an unclosed script: " + e.Error())
+			}
+			snap = append([]byte{}, uw.buf.Bytes()...)
+			wr.lastNext, _ = w.Next()
+			w.Close()
+		})
+		if o.timedOut {
+			wr.hang = "Wait/Close at the end of an unclosed script"
+			return wr
+		}
+		if o.panicked {
+			wr.panicked = &o
+			return wr
+		}
+		wr.out = snap
+		return wr
 	}
 	wr.out = uw.buf.Bytes()
 	return wr
